@@ -206,14 +206,10 @@ def _c03_extra():
                         fwd_seed = seed_arg == "seed"
                 if shape_src is None:
                     raise Untranslatable("assignment to `shape` not found")
-                if not (isinstance(shape_src, ast.Subscript) and isinstance(shape_src.slice, ast.Slice)
-                        and shape_src.slice.upper is None and shape_src.slice.step is None
-                        and "kspace.shape" in ast.unparse(shape_src.value)):
-                    raise Untranslatable(f"shape is `{ast.unparse(shape_src)}`")
-                lo = shape_src.slice.lower
-                drop = 0 if lo is None else _number(lo)
-                if not isinstance(drop, int) or drop < 0:
-                    raise Untranslatable("slice bound of the mask shape")
+                lo, hi = _slice_bounds(shape_src)
+                if lo < 0 or hi != "none":
+                    raise Untranslatable("mask shape is not `kspace.shape[n:]`")
+                drop = lo
                 as_is = any(isinstance(s, ast.Assign) and ast.unparse(s.targets[0]) == "mask"
                             and ast.unparse(s.value) == "mask_func" for s in tensor_branch)
         if drop is None:
@@ -321,21 +317,28 @@ def _c03_extra():
 EXTRA["C03"] = _c03_extra
 
 
-def _shape_drop_build(k: Kernel, fn: ast.FunctionDef) -> str:
-    """`shape = np.array(kspace.shape)[1:]` -> number of leading axes hidden from the mask function"""
+def _slice_bounds(v: ast.AST) -> tuple[int, str]:
+    """`np.array(kspace.shape)[lo:hi]` -> (lo, Lean Option Int of hi)"""
+    if not (isinstance(v, ast.Subscript) and isinstance(v.slice, ast.Slice) and v.slice.step is None
+            and "kspace.shape" in ast.unparse(v.value)):
+        raise Untranslatable(f"shape is `{ast.unparse(v)}`")
+    lo = 0 if v.slice.lower is None else _number(v.slice.lower)
+    hi = None if v.slice.upper is None else _number(v.slice.upper)
+    if not isinstance(lo, int) or not (hi is None or isinstance(hi, int)):
+        raise Untranslatable(f"slice bounds of `{ast.unparse(v)}`")
+    return lo, "none" if hi is None else f"some ({hi})"
+
+
+def _shape_slice_build(k: Kernel, fn: ast.FunctionDef) -> str:
+    """`shape = np.array(kspace.shape)[1:]` -> the slice of kspace.shape shown to the mask function"""
     for st in ast.walk(fn):
         if isinstance(st, ast.Assign) and ast.unparse(st.targets[0]) == "shape":
-            v = st.value
-            if (isinstance(v, ast.Subscript) and isinstance(v.slice, ast.Slice) and v.slice.upper is None
-                    and v.slice.step is None and "kspace.shape" in ast.unparse(v.value)):
-                lo = 0 if v.slice.lower is None else _number(v.slice.lower)
-                if isinstance(lo, int) and lo >= 0:
-                    return f"def {k.name} : Int := ({lo} : Int)\n"
-            raise Untranslatable(f"shape is `{ast.unparse(v)}`")
+            lo, hi = _slice_bounds(st.value)
+            return f"def {k.name} : Int × Option Int := (({lo} : Int), ({hi} : Option Int))\n"
     raise Untranslatable("assignment to `shape` not found")
 
 
 register("C03", [
-    Kernel("apply_mask_shape_drop", T, "apply_mask", [], "(1 : Int)", _shape_drop_build,
-           imports=("DirectVerif.Model.Mask",)),
+    Kernel("apply_mask_shape_slice", T, "apply_mask", [], "((1 : Int), (none : Option Int))", _shape_slice_build,
+           ret_type="Int × Option Int", imports=("DirectVerif.Model.Mask",)),
 ])
